@@ -226,7 +226,7 @@ func TestC10(t *testing.T) {
 	r := fw.Start(t, "C10")
 	defer r.Finish()
 	againPhase(t, r, "C10", r.N(1500, 30000), map[string]bool{"header": true, "body": true, "nogetbody": true, "events": true})
-	bodies := []string{"nil", "nobody", "bytes", "bytes", "closeonce", "noget", "noget_seek", "getfail:1", "getfail:2", "getfail:4"}
+	bodies := []string{"nil", "nobody", "nobody_getbody", "bytes", "bytes", "closeonce", "noget", "noget_seek", "getfail:1", "getfail:2", "getfail:4"}
 	n := r.N(6000, 120000)
 	for i := 0; i < n; i++ {
 		if !r.Mine("S", i) {
